@@ -15,7 +15,10 @@ CFG = dict(
          "decoders, value PAIRS of one column (all pairs of the boundary pools, sampled pairs otherwise) through the key encoder and "
          "the engine's own Compare; encoder guard violations and mutated/random encodings to the decoders; rows of random tables "
          "with composite indexes through the real engine (index entry keys read back from the store); random TxMetadata / "
-         "KVMetadata / TxHeader values and committed transactions (ExportTx -> ReplicateTx on a second store). A case is "
+         "KVMetadata / TxHeader values and committed transactions (ExportTx -> ReplicateTx on a second store); protocol conversions: "
+         "store value -> message -> store value for random and boundary metadata / headers / entries (Version, NEntries, VLen around "
+         "2^31 and 2^32 and negative; nil, empty and degenerate metadata) and hand-made messages with short / long digests, "
+         "TruncatedTxID 0, Extra of 0..300 bytes through XFromProto. A case is "
          "non-trivial when its value is not NULL (pairs: the two values differ; decoders: more than the tag / length prefix; "
          "store codecs: at least one attribute / entry); distinct by the full Coq term (entry point, inputs, observed result)",
     trusted_base=COMMON_TB + [
@@ -27,8 +30,13 @@ CFG = dict(
         "sign/exponent/mantissa of the patterns and tied to Go by the correspondence run (pairs of boundary and random "
         "patterns), not derived from a formal IEEE semantics; a time.Time is its exact nanosecond count since the epoch, "
         "UnixNano/TimeToInt64 wrap modulo 2^64 as Go's int64 arithmetic does",
-        "NOT modelled (exercised by the harness as black-box round trips, direct check only): protobuf conversions "
-        "(schema.TxHeaderToProto/FromProto, TxMetadata, KVMetadata, SQL value <-> schema.SQLValue), document <-> structpb "
+        "modelled and proved at the level of the generated message structs (coq/Store/ProtoConv.v, ProtoConvProofs.v): "
+        "schema.TxHeaderToProto/FromProto, TxMetadataToProto/FromProto, KVMetadataToProto/FromProto, TxEntryToProto and the "
+        "per-entry part of TxFromProto, DigestFromProto, with the int32 truncation / sign extension of Version, Nentries and "
+        "VLen and the dropped WithExtra error written out; the protobuf wire (proto.Marshal/Unmarshal) is the protobuf "
+        "library and stays a black box (round trips through the wire in harness/c15/bb.go)",
+        "NOT modelled (exercised by the harness as black-box round trips, direct check only): SQL value <-> schema.SQLValue, "
+        "proof messages (DualProof/LinearProof/InclusionProof conversions: plain field copies through DigestsFromProto), document <-> structpb "
         "conversions (documents inserted and read back; INTEGER fields at the float64/int64 boundaries 2^53, +-2^63 and "
         "their neighbours must be rejected or indexed as the number the document holds: checked by comparison queries on the field), the JSON SQL type, implicit type conversions of mayApplyImplicitConversion (the harness always hands "
         "the encoders a value of the column's own Go type or nil), the row-level framing of encodeRowValue "
